@@ -128,3 +128,17 @@ Fixpoint member_offsets (fs : list field) (part : Z) (o : Z) : list (Z * Z * Z) 
       if ends_block f then entry :: member_offsets r (part + 1) 0
       else entry :: member_offsets r part (o1 + fsize size f)
   end.
+
+(* ---- the wire offset of the last member of a struct (C09: the unlimited member of a message with a
+   greedy tail, which the raw swap leaves alone and whose address it returns) ---- *)
+Fixpoint last_member_offset (fs : list field) (vs : list value) (after_dyn : bool) (o : Z) : Z :=
+  match fs, vs with
+  | f :: r, v :: vr =>
+      let a := if after_dyn then blockal (f :: r) else falign align f in
+      let p := pad a o in
+      match r with
+      | [] => o + p
+      | _ => last_member_offset r vr (ends_block f) (o + p + segslen (lay_body layout f v (o + p)))
+      end
+  | _, _ => o
+  end.
